@@ -62,8 +62,13 @@ type request struct {
 	Min     int64  `json:"min_height,omitempty"`
 	Max     int64  `json:"max_height,omitempty"`
 	Key     string `json:"key,omitempty"`
-	Query   string `json:"query,omitempty"`
-	hash    []byte
+	KeyHex  string `json:"key_hex,omitempty"`
+	// StoreQuery: path /store/<Store>/key into the two-level store (ministore.go) instead of /key
+	StoreQuery bool   `json:"store_query,omitempty"`
+	Store      string `json:"store,omitempty"`
+	StoreHex   string `json:"store_hex,omitempty"`
+	Query      string `json:"query,omitempty"`
+	hash       []byte
 }
 
 func hp(h int64) *int64 {
@@ -115,7 +120,11 @@ func invoke(cl rpcclient.Client, rq *request) (resp interface{}, err error, pani
 	case "BlockchainInfo":
 		resp, err = cl.BlockchainInfo(ctx, rq.Min, rq.Max)
 	case "ABCIQuery":
-		resp, err = cl.ABCIQueryWithOptions(ctx, "/key", []byte(rq.Key), rpcclient.ABCIQueryOptions{Height: rq.Height, Prove: true})
+		path := "/key"
+		if rq.StoreQuery {
+			path = "/store/" + rq.Store + "/key"
+		}
+		resp, err = cl.ABCIQueryWithOptions(ctx, path, []byte(rq.Key), rpcclient.ABCIQueryOptions{Height: rq.Height, Prove: true})
 	default:
 		panic("unknown method " + rq.Method)
 	}
@@ -144,7 +153,7 @@ func (cc *chainCtx) judge(rq *request, resp interface{}) (j judgement, extraInva
 	case *ctypes.ResultBlockchainInfo:
 		return cc.judgeBlockchainInfo(v), false
 	case *ctypes.ResultABCIQuery:
-		return cc.judgeQuery(v), false
+		return cc.judgeQuery(rq, v), false
 	}
 	return bad("type", "unexpected response type %T", resp), false
 }
@@ -157,8 +166,15 @@ type verifier struct {
 	be *backend // the node: `next` of the verifying client and the primary light provider's RPC client
 }
 
-func singleKeyPath(path string, key []byte) (merkle.KeyPath, error) {
-	return merkle.KeyPath{}.AppendKey(key, merkle.KeyEncodingURL), nil
+// keyPathFn builds the key path the way light/rpc.DefaultMerkleKeyPathFn does (URL encoding at every
+// level), for this application's proof layout: /key -> [key]; /store/<name>/key -> [k/ms, name, key].
+func keyPathFn(path string, key []byte) (merkle.KeyPath, error) {
+	kp := merkle.KeyPath{}
+	if strings.HasPrefix(path, "/store/") && strings.HasSuffix(path, "/key") && len(path) >= len("/store//key") {
+		kp = kp.AppendKey([]byte("k/ms"), merkle.KeyEncodingURL)
+		kp = kp.AppendKey([]byte(path[len("/store/"):len(path)-len("/key")]), merkle.KeyEncodingURL)
+	}
+	return kp.AppendKey(key, merkle.KeyEncodingURL), nil
 }
 
 // newVerifier wires the deployment of the light proxy: one (possibly lying)
@@ -177,7 +193,7 @@ func (cc *chainCtx) newVerifier(be *backend, trustH int64, seq bool) (*verifier,
 	if err != nil {
 		return nil, err
 	}
-	return &verifier{cl: lrpc.NewClient(be, lc, lrpc.KeyPathFn(singleKeyPath)), lc: lc, be: be}, nil
+	return &verifier{cl: lrpc.NewClient(be, lc, lrpc.KeyPathFn(keyPathFn)), lc: lc, be: be}, nil
 }
 
 // ---------------------------------------------------------------- groups
@@ -191,6 +207,7 @@ type group struct {
 	falsOf     string // the node method whose answer is falsified ("" = the request's own method)
 	skipHonest bool   // the honest calls of this request are made by a sibling group
 	Never      bool   `json:"item_never_committed,omitempty"`
+	Special    bool   `json:"special_key_family,omitempty"`
 	AtTip      bool   `json:"repeat_at_tip,omitempty"` // the node starts lying only after the light client has reached its latest height
 }
 
@@ -228,6 +245,24 @@ var relayedKinds = map[string]bool{"Block": true, "BlockByHash": true, "BlockRes
 	"ConsensusParams": true, "BlockchainInfo": true, "ABCIQuery": true}
 
 func lower(s string) string { return strings.ToLower(s) }
+
+// inputClass: the input class of an application query (for finding keys): keys / store names that the
+// key-path encoding treats in a way of its own.
+func inputClass(rq *request) string {
+	if rq.Method != "ABCIQuery" {
+		return ""
+	}
+	// one class per request: the key is checked first (innermost proof op), the store name after it
+	if c := keyClass(rq.Key); c != "" {
+		return "-key" + c
+	}
+	if rq.StoreQuery {
+		if c := keyClass(rq.Store); c != "" {
+			return "-store-name" + c
+		}
+	}
+	return ""
+}
 
 // reqVariant: the methods for which "no height given" is a code path of its own in light/rpc
 // (Update() instead of VerifyLightBlockAtHeight; the node answering for the uncommitted height).
@@ -282,6 +317,33 @@ func (cc *chainCtx) buildGroups(c *verdict.Ctx, r *rand.Rand, nTargets int, gidx
 			}
 			add(request{Method: "TxSearch", Query: fmt.Sprintf("tx.height=%d", h)}, txPositionFalsSearch(-1), "")
 			break
+		}
+	}
+	// special keys: bytes the key-path encoding treats specially, and their twins
+	hexs := func(x string) string { return hex.EncodeToString([]byte(x)) }
+	if qh := cc.last - 1; qh >= cc.first {
+		mid := cc.first + (cc.last-cc.first)/2
+		for i, k := range specialPlainKeys {
+			rq := request{Method: "ABCIQuery", Height: []int64{qh, mid, 0}[i%3], Key: k, KeyHex: hexs(k)}
+			add(rq, append(queryFals(), specialQueryFals(rq, cc)...), "")
+			gs[len(gs)-1].Special = true
+		}
+		var pairs [][2]string
+		for _, k := range specialKeys {
+			pairs = append(pairs, [2]string{"bank", k})
+		}
+		for _, st := range specialStores {
+			if st != "bank" {
+				pairs = append(pairs, [2]string{st, "plain"})
+			}
+		}
+		for n := 0; n < 6; n++ {
+			pairs = append(pairs, [2]string{specialStores[r.Intn(len(specialStores))], specialKeys[r.Intn(len(specialKeys))]})
+		}
+		for i, p := range pairs {
+			rq := request{Method: "ABCIQuery", Height: []int64{qh, mid, 0}[i%3], StoreQuery: true, Store: p[0], StoreHex: hexs(p[0]), Key: p[1], KeyHex: hexs(p[1])}
+			add(rq, specialQueryFals(rq, cc), "")
+			gs[len(gs)-1].Special = true
 		}
 	}
 	// items that were never committed: the honest node has nothing to say; a lying node answers with the
@@ -463,6 +525,10 @@ func (cc *chainCtx) runGroup(c *verdict.Ctx, g *group) {
 			if panicked {
 				key = lower(m) + reqVariant(&g.Req) + "-honest-answer-panics"
 			}
+			key += inputClass(&g.Req)
+			if g.Special {
+				c.Count("special_keys.honest_refused"+inputClass(&g.Req), 1)
+			}
 			c.Violation(key, fmt.Sprintf("%s%s against an honest full node (%s): %v", m, reqVariant(&g.Req), tag, err),
 				wit("none (honest)", true, err, judgement{}, nil, tag))
 			continue
@@ -621,7 +687,7 @@ func (cc *chainCtx) runGroup(c *verdict.Ctx, g *group) {
 		}
 		c.Count("verdict."+m+".RELAYED-FALSIFIED", 1)
 		class := f.Class
-		if class == clsSubst || class == clsRelabel || class == clsNodeSubst || class == clsNodeRelabel {
+		if class == clsSubst || class == clsRelabel || class == clsNodeSubst || class == clsNodeRelabel || strings.HasPrefix(class, "twin") {
 			class = j.Class
 		}
 		if class == "not-claimed" || class == "other-genuine" || g.falsOf != "" {
@@ -638,6 +704,7 @@ func (cc *chainCtx) runGroup(c *verdict.Ctx, g *group) {
 		if g.AtTip {
 			key = lower(m) + "-no-height-relays-falsified-" + class + "-at-tip"
 		}
+		key += inputClass(&g.Req)
 		if j.Class == "nonexistent-position" {
 			key = lower(m) + "-relays-nonexistent-position"
 		}
